@@ -714,6 +714,32 @@ def r3e_builtin_on_empty(ctx, chk, rule="C06.3e"):
                 chk.violation(rule, vir.where(c), "`%s` has no default: when no state outside the final ones can reach a final state the swept list `%s` is empty and solve() fails with a stray "
                               "'ValueError: %s() iterable argument is empty' instead of the result / the 'no solution' error" % (src(c)[:70], dom, call_name(c)),
                               expected="default= (or a non-emptiness test)", found=src(c)[:100], construct="value_iteration_reachability %s() over an empty sweep" % call_name(c))
+            # ... or over a list that the sweep fills with one entry per swept state (`diffs = []; for s in dom: diffs.append(..)`),
+            # or an index-picker built from the swept states (`itemgetter(*dom)`: no argument at all for an empty list, the bare
+            # item instead of a tuple for one)
+            if isinstance(c, ast.Call) and call_name(c) in ("max", "min") and len(c.args) == 1 and isinstance(c.args[0], ast.Name) and c.args[0].id != dom \
+                    and not any(k.arg == "default" for k in c.keywords) and not _under_nonempty_test(c):
+                lst = c.args[0].id
+                fills = [n_ for n_ in walk_no_nested_defs(vir.node) if isinstance(n_, ast.Call) and isinstance(n_.func, ast.Attribute) and n_.func.attr == "append"
+                         and isinstance(n_.func.value, ast.Name) and n_.func.value.id == lst]
+                inits = [n_ for n_ in walk_no_nested_defs(vir.node) if isinstance(n_, ast.Assign) and any(isinstance(t_, ast.Name) and t_.id == lst for t_ in n_.targets)]
+
+                def _in_loop_over_dom(n_):
+                    p_ = n_
+                    while p_ is not None and p_ is not vir.node:
+                        if isinstance(p_, ast.For) and isinstance(p_.iter, ast.Name) and p_.iter.id == dom:
+                            return True
+                        p_ = getattr(p_, "parent", None)
+                    return False
+                if fills and inits and all(isinstance(i_.value, ast.List) and not i_.value.elts for i_ in inits) and all(_in_loop_over_dom(n_) for n_ in fills):
+                    chk.violation(rule, vir.where(c), "`%s` has no default and `%s` gets one entry per swept state: when no state outside the final ones can reach a final state the sweep "
+                                  "is empty, so is the list, and solve() fails with a stray 'ValueError: %s() iterable argument is empty' instead of the result / the 'no solution' error"
+                                  % (src(c)[:60], lst, call_name(c)), expected="default=0 (or a running maximum that starts from 0)", found=src(c)[:100],
+                                  construct="value_iteration_reachability %s() over an empty sweep" % call_name(c))
+            if isinstance(c, ast.Call) and call_name(c) in ("itemgetter", "operator.itemgetter") and any(isinstance(a_, ast.Starred) and isinstance(a_.value, ast.Name) and a_.value.id == dom for a_ in c.args):
+                chk.violation(rule, vir.where(c), "`%s`: itemgetter needs at least one index (TypeError for an empty swept list) and returns the bare item, not a tuple, for exactly one - "
+                              "a game with no or one non-final state that reaches a final state makes solve() fail with a stray TypeError" % src(c)[:60],
+                              expected="a comprehension over the swept list", found=src(c)[:80], construct="value_iteration_reachability itemgetter over the sweep domain")
             if isinstance(c, ast.Subscript) and isinstance(c.value, ast.Name) and c.value.id == dom and isinstance(c.ctx, ast.Load) \
                     and isinstance(c.slice, (ast.Constant, ast.UnaryOp)) and not isinstance(getattr(c.slice, "value", 0), (str, type(None))) and not _under_nonempty_test(c):
                 chk.violation(rule, vir.where(c), "`%s` reads an element of the swept list at a fixed position: when no state outside the final ones can reach a final state the list is empty and "
